@@ -254,7 +254,7 @@ def _eq_config(draw, tier, kinds, trajectory):
   big = tier == 'thorough'
   kind = draw(st.sampled_from(list(kinds)))
   gkind = draw(st.sampled_from(['any', 'vector', 'vector', 'quadratic']))
-  g = draw(gens.grid_configs(kind=gkind, min_m=2, max_m=10 if big else 6, spacings=('gauss', 'equiangular'),
+  g = draw(gens.grid_configs(kind=gkind, min_m=3, max_m=10 if big else 6, spacings=('gauss', 'equiangular'),
                              allow_radius=False, max_slack=3))
   if gkind == 'any':   # at least two nodes in each direction so that the operations act
     g['nlon'] = max(g['nlon'], g['M'], 2)    # Fourier basis contract: nodes >= wavenumbers
@@ -271,7 +271,8 @@ def _eq_config(draw, tier, kinds, trajectory):
     cfg['ref_potential'] = [float(draw(st.sampled_from([0.1, 0.3, 1.0]))) for _ in range(n)]
     fields = ['vorticity', 'divergence', 'potential']
   else:
-    b = draw(gens.sigma_boundaries(1, 6 if big else 4))
+    b = ([0.0, 1.0] if draw(st.sampled_from([False] * 7 + [True])) else    # a single layer 1 time in 8
+         draw(gens.sigma_boundaries(2, 6 if big else 4, kinds=('uneven', 'uneven', 'hybrid', 'equidistant'))))
     n = len(b) - 1
     cfg['boundaries'] = b
     cfg['t_ref'] = draw(_profile(n))
@@ -280,7 +281,7 @@ def _eq_config(draw, tier, kinds, trajectory):
   if trajectory:
     cfg['integrator'] = draw(st.sampled_from(['sil3', 'cn_rk2', 'cn_rk3', 'cn_rk4', 'bfe', 'leapfrog']))
     cfg['dt'] = draw(st.sampled_from([0.01, 0.03]))
-    cfg['steps'] = [draw(st.integers(1, 3)), draw(st.integers(1, 2))]   # outer, inner
+    cfg['steps'] = [draw(st.integers(2, 3)), draw(st.integers(1, 2))]   # outer, inner: always a multi-step run
     cfg['filters'] = draw(st.sampled_from([[], ['exponential'], ['exponential', 'diffusion'], ['diffusion']]))
     if cfg['integrator'] == 'leapfrog':
       cfg['filters'] = draw(st.sampled_from([[], ['exponential', 'robert_asselin'], ['robert_asselin']]))
@@ -340,14 +341,16 @@ class _Model:
                                                       'slope': 1}, 'orography', lmax=L - 1, amp=oro_amp)
 
   def equation(self, orography):
-    from dinosaur import held_suarez, primitive_equations as pe, shallow_water as sw
+    from dinosaur import primitive_equations as pe, shallow_water as sw
     if self.kind == 'sw':
       return sw.ShallowWaterEquations(self.coords, self.specs, orography,
                                       np.asarray(self.cfg['ref_potential'], dtype=np.float64))
-    if self.kind == 'hs':
-      return held_suarez.HeldSuarezForcing(self.coords, self.specs, self.t_ref)
     cls = pe.MoistPrimitiveEquations if self.kind == 'moist' else pe.PrimitiveEquations
     return cls(self.t_ref, orography, self.coords, self.specs)
+
+  def forcing(self):
+    from dinosaur import held_suarez
+    return held_suarez.HeldSuarezForcing(self.coords, self.specs, self.t_ref)
 
   def state(self, descr):
     from dinosaur import primitive_equations as pe, shallow_water as sw
@@ -371,8 +374,6 @@ class _Model:
                for t in self.cfg.get('tracers', [])}
     if self.kind == 'moist':
       return pe.StateWithTime(sim_time=0.0, tracers=tracers, **f)
-    if self.kind == 'hs':
-      return pe.State(**f)
     return pe.State(tracers=tracers, **f)
 
   def state_floors(self, descr):
@@ -448,14 +449,14 @@ def run_tendencies(case):
   kind = model.kind
   eta = float(cfg.get('eta', 0.02))
 
-  if kind == 'hs':
-    fn = jax.jit(lambda oro, s: {'held_suarez_explicit_terms': model.equation(oro).explicit_terms(s)})
-  else:
-    def all_terms(oro, s):
-      eq = model.equation(oro)
-      return {'explicit_terms': eq.explicit_terms(s), 'implicit_terms': eq.implicit_terms(s),
-              'implicit_inverse': eq.implicit_inverse(s, eta)}
-    fn = jax.jit(all_terms)
+  def all_terms(oro, s):
+    eq = model.equation(oro)
+    res = {'explicit_terms': eq.explicit_terms(s), 'implicit_terms': eq.implicit_terms(s),
+           'implicit_inverse': eq.implicit_inverse(s, eta)}
+    if kind != 'sw':      # the Held-Suarez forcing of the same state (cheap: shares the compilation)
+      res['held_suarez_explicit_terms'] = model.forcing().explicit_terms(s)
+    return res
+  fn = jax.jit(all_terms)
 
   states = [model.state(d) for d in inputs]
   out = Outcome(labels=_labels(cfg, ops, inputs), units=len(states) * len(ops),
@@ -540,22 +541,35 @@ def run_trajectory(case):
 
 SUBCHECKS = [
     Subcheck('symmetry_maps_vs_nodal', run_maps, strategy=lambda tier: _maps_case(tier),
-             examples={'quick': 60, 'thorough': 600}, shards={'quick': 1, 'thorough': 4},
-             wall={'quick': 120.0, 'thorough': 900.0},
+             examples={'quick': 80, 'thorough': 600}, shards={'quick': 1, 'thorough': 4},
+             wall={'quick': 420.0, 'thorough': 900.0},
              rule='non-trivial = some operation is not the identity and the grid has M >= 2, L >= 3',
              doc='coefficient-space rotation / mirror == np.roll / [::-1] of to_nodal for all unit vectors; '
                  'to_modal of rolled/flipped arbitrary nodal data == transformed to_modal', weight=1),
-    Subcheck('tendency_equivariance', run_tendencies,
-             strategy=lambda tier: _eq_config(tier, ('dry', 'moist', 'sw', 'hs'), False),
-             examples={'quick': 60, 'thorough': 800}, shards={'quick': 4, 'thorough': 10},
-             wall={'quick': 150.0, 'thorough': 1500.0},
+    Subcheck('tendency_equivariance_pe', run_tendencies,
+             strategy=lambda tier: _eq_config(tier, ('dry', 'moist'), False),
+             examples={'quick': 48, 'thorough': 600}, shards={'quick': 3, 'thorough': 8},
+             wall={'quick': 420.0, 'thorough': 1500.0},
              rule='non-trivial = a non-identity operation and a state with m >= 1 components of both parities of l+m',
-             doc='explicit_terms, implicit_terms, implicit_inverse (and Held-Suarez forcing) commute with S', weight=3),
-    Subcheck('trajectory_equivariance', run_trajectory,
-             strategy=lambda tier: _eq_config(tier, ('dry', 'moist', 'sw'), True),
-             examples={'quick': 36, 'thorough': 400}, shards={'quick': 4, 'thorough': 10},
-             wall={'quick': 150.0, 'thorough': 1500.0},
+             doc='explicit_terms, implicit_terms, implicit_inverse of the dry / moist primitive equations and the '
+                 'Held-Suarez forcing of the same state commute with S', weight=3),
+    Subcheck('tendency_equivariance_sw', run_tendencies,
+             strategy=lambda tier: _eq_config(tier, ('sw',), False),
+             examples={'quick': 24, 'thorough': 300}, shards={'quick': 1, 'thorough': 3},
+             wall={'quick': 420.0, 'thorough': 1500.0},
+             rule='non-trivial = as tendency_equivariance_pe',
+             doc='the same for the 1-3 layer shallow-water equations with orography', weight=2),
+    Subcheck('trajectory_equivariance_pe', run_trajectory,
+             strategy=lambda tier: _eq_config(tier, ('dry', 'moist'), True),
+             examples={'quick': 36, 'thorough': 300}, shards={'quick': 3, 'thorough': 8},
+             wall={'quick': 420.0, 'thorough': 1500.0},
              rule='non-trivial = as above and at least 2 steps',
              doc='n-step trajectories (6 integrators, with filters) of S x equal S applied to the trajectory of x',
              weight=3),
+    Subcheck('trajectory_equivariance_sw', run_trajectory,
+             strategy=lambda tier: _eq_config(tier, ('sw',), True),
+             examples={'quick': 20, 'thorough': 200}, shards={'quick': 1, 'thorough': 3},
+             wall={'quick': 420.0, 'thorough': 1500.0},
+             rule='non-trivial = as above and at least 2 steps',
+             doc='the same for shallow water (incl. filtered leapfrog)', weight=2),
 ]
